@@ -298,6 +298,8 @@ func TestVerif_C17_e2eresend(t *testing.T) {
 				if r.Intn(2) == 0 {
 					p := filepath.Join(dir, "rs"+strconv.Itoa(i)+"_"+name)
 					os.WriteFile(p, content, 0o644)
+					p, form := c17PathForm(r, p) // any way of naming the file: each attempt re-opens it
+					s.Count("path-" + form)
 					req.SetFile("file"+strconv.Itoa(j), p)
 					name = filepath.Base(p)
 					wantFiles = append(wantFiles, wantFile{name, string(content), "path"})
